@@ -285,7 +285,9 @@ def compare(ctx, stream, cases, with_spec=True, batch=20000):
 
 def run_program_stream(ctx):
     """HOOK (to be filled by the program-level work): histories run as Zn programs through the interpreter —
-    遍历 trace order, copies between steps, and 生成JSON key order compared with the displayed order."""
+    遍历 trace order, copies between steps, and 生成JSON key order compared with the displayed order; loops whose body removes items from / adds items to the list being
+    traversed (every pass or one chosen pass; one body never does both), and loops that write new keys into the dictionary
+    being traversed."""
     from props import progs
     g = progs.G(ctx.rng)
     n = ctx.n(1200, 30000)
